@@ -2,6 +2,7 @@
    Proofs/FlowProofs.v, over Model/Storage.v (limitSize), Model/Log.v (slice/entries),
    Model/Raft.v (maybeSendAppend, appendEntry), Model/Progress.v (Inflights). *)
 From Coq Require Import List NArith.
+From RaftV Require InflRefine.
 From RaftV Require Import Base Types Progress Tracker Storage Log Raft FlowProofs.
 Import ListNotations.
 Open Scope N_scope.
@@ -65,3 +66,35 @@ Theorem C16_inflights_free : forall i to,
   infl_inv i -> infl_inv (infl_free_le i to) /\ in_count (infl_free_le i to) <= in_count i.
 Proof. exact infl_free_le_inv. Qed.
 Print Assumptions C16_inflights_free.
+
+
+(* ---------- tracker.Inflights is a plain window (Proofs/InflRefine.v) ---------- *)
+
+(* Data refinement of the ring buffer (start, count, a buffer that grows by doubling up to size, with
+   wrap-around) to a list of (index, bytes), oldest first: Add panics exactly when the window is full
+   (by count, or by bytes when a byte limit is set) and otherwise appends; FreeLE drops exactly the
+   leading entries whose index is <= to; reset empties it; Count and Full are the length and the
+   fullness of the window.  [infl_ok] is the representation invariant; it holds of NewInflights. *)
+Theorem C16_inflights_refines_window : forall i o,
+  InflRefine.infl_ok i ->
+  match InflRefine.cstep i o, InflRefine.astep (in_size i) (in_maxbytes i) (infl_window i) o with
+  | Ok i', Some w' =>
+      InflRefine.infl_ok i' /\ infl_window i' = w' /\ in_size i' = in_size i /\ in_maxbytes i' = in_maxbytes i /\
+      infl_count i' = nlen w' /\ infl_full i' = InflRefine.afull (in_size i) (in_maxbytes i) w'
+  | Panic _, None => True
+  | _, _ => False
+  end.
+Proof. exact InflRefine.infl_refines. Qed.
+Print Assumptions C16_inflights_refines_window.
+
+Theorem C16_new_inflights_ok : forall size mb,
+  InflRefine.infl_ok (new_inflights size mb) /\ infl_window (new_inflights size mb) = [].
+Proof. exact InflRefine.infl_new_ok. Qed.
+Print Assumptions C16_new_inflights_ok.
+
+(* what every window reached by these operations guarantees: at most [size] messages in flight and,
+   with a byte limit, everything but the newest message stays below the limit *)
+Theorem C16_window_budget : forall size mb w o w',
+  InflRefine.window_inv size mb w -> InflRefine.astep size mb w o = Some w' -> InflRefine.window_inv size mb w'.
+Proof. exact InflRefine.window_inv_step. Qed.
+Print Assumptions C16_window_budget.
